@@ -159,7 +159,7 @@ def call_specfun(ev, name, node, st):
     ctx = ev.ctx
     argn, rsh, body = ctx.contract["spec_funs"][name]
     rs = parse_shape(rsh)
-    key = (id(ctx), name)
+    key = (id(ctx), getattr(ctx, "specfun_scope", 0), name)
     if key not in _specfun_cache:
         vs = [z3.Int(fresh_name(a)) for a in argn]
         env = dict(ctx.old_env)
@@ -283,12 +283,21 @@ def apply_contract(ev, q, c, vals, nodes, st, node, callee_mod, tag=None):
     st.pc.extend(facts)
     s3 = State(post_env, st.pc)
     saved = ctx.old_env
+    saved_contract, saved_scope = ctx.contract, getattr(ctx, "specfun_scope", 0)
     ctx.old_env = old_env
+    if c.get("spec_funs"):
+        # the callee's named specification functions are defined over *its* parameters: evaluate them in the callee's
+        # environment, with fresh symbols per call site
+        ctx.contract = dict(saved_contract, spec_funs=c["spec_funs"])
+        ctx.call_counter = getattr(ctx, "call_counter", 0) + 1
+        ctx.specfun_scope = ctx.call_counter
     try:
         for e, _ in ctx.clauses(c.get("ensures", []) + c.get("ensures_assumed", [])):
             st.pc.append(sev.spec_bool(e, s3))
     finally:
         ctx.old_env = saved
+        ctx.contract = saved_contract
+        ctx.specfun_scope = saved_scope
     # write back modified arguments
     for p in c.get("modifies", []):
         an = nodes.get(p)
@@ -602,10 +611,9 @@ def argext(ev, args, st, node, which):
     vp = z3.Select(arr, p)
     st.pc.append(z3.And(r >= 0, r < v.n))
     def fa(body):
-        try:
-            return z3.ForAll([p], body, patterns=[vp])
-        except z3.Z3Exception:
+        if has_ite(vp):
             return z3.ForAll([p], body)      # the array term contains an if-then-else: z3 chooses the trigger
+        return z3.ForAll([p], body, patterns=[vp])
     if which == "max":
         st.pc.append(fa(z3.Implies(z3.And(p >= lo, p < hi), vp <= vr)))
         st.pc.append(fa(z3.Implies(z3.And(p >= lo, p < lo + r), vp < vr)))
@@ -687,6 +695,21 @@ def lib_mean(ev, args, kw, st, node):
     return Num(core.real_div(s.real(), z3.ToReal(v.n)))
 
 
+def has_ite(t):
+    seen = set()
+    stack = [t]
+    while stack:
+        u = stack.pop()
+        if u.get_id() in seen:
+            continue
+        seen.add(u.get_id())
+        if z3.is_app(u):
+            if u.decl().kind() == z3.Z3_OP_ITE:
+                return True
+            stack.extend(u.children())
+    return False
+
+
 def sqrt_seq(ev, n, xfn, st):
     """elementwise square root: sequence r with r[k] = sqrt(x(k)); the defining property is asserted for every k"""
     out = Seq.from_fn(n, REAL, lambda k: Num(uf_real("sqrt", xfn(k))))
@@ -694,10 +717,10 @@ def sqrt_seq(ev, n, xfn, st):
     r = as_num(out.at(k2)).t
     x = xfn(k2)
     body = z3.Implies(z3.And(k2 >= 0, k2 < n, x >= 0), z3.And(r >= 0, r * r == x))
-    try:
-        st.pc.append(z3.ForAll([k2], body, patterns=[r]))
-    except z3.Z3Exception:
+    if has_ite(r):
         st.pc.append(z3.ForAll([k2], body))        # the argument contains an if-then-else: let z3 choose the trigger
+    else:
+        st.pc.append(z3.ForAll([k2], body, patterns=[r]))
     return out
 
 
@@ -796,6 +819,30 @@ def lib_hypot(ev, args, kw, st, node):
         return sqrt_seq(ev, a.n, xfn, st)
     x, y = as_num(a).real(), as_num(b).real()
     return Num(sqrt_term(ev, x * x + y * y, st))
+
+
+@lib("numpy.arange")
+def lib_arange(ev, args, kw, st, node):
+    if len(args) != 1:
+        raise Unsupported("np.arange with start/step")
+    n = as_num(args[0])
+    if not n.is_int:
+        raise Unsupported("np.arange of a non-integer")
+    ln = z3.If(n.t >= 0, n.t, z3.IntVal(0))
+    return Seq.from_fn(z3.simplify(ln), INT, lambda k: Num(k))
+
+
+@lib("numpy.empty_like")
+def lib_empty_like(ev, args, kw, st, node):
+    """uninitialised array of the same shape and dtype: arbitrary contents"""
+    v = args[0]
+    if not isinstance(v, Seq):
+        raise Unsupported("np.empty_like of %r" % (v,))
+    facts = []
+    out = fresh(Sh("seq", [v.esh]), "empty", facts, "array")
+    st.pc.extend(facts)
+    st.pc.append(out.n == v.n)
+    return out
 
 
 @lib("numpy.zeros")
@@ -934,6 +981,25 @@ def mask_select(ev, base, mask, st, node):
 
 
 def mask_store(ev, base, mask, v, st, node):
+    if mask.esh.kind == "int" and isinstance(v, Seq) and base.esh.kind in ("int", "real"):
+        # fancy store a[idx] = v with pairwise distinct indices: a'[idx[k]] = v[k], all other cells unchanged
+        n = mask.n
+        a_, b_, k = z3.Int(fresh_name("a")), z3.Int(fresh_name("b")), z3.Int(fresh_name("k"))
+        ia = lambda t: as_num(mask.at(t)).t
+        ev.need("fancy store: index and value lengths agree", st, v.n == n, node)
+        ev.need("fancy store: indices in bounds", st, z3.ForAll([k], z3.Implies(z3.And(k >= 0, k < n), z3.And(ia(k) >= 0, ia(k) < base.n))), node)
+        ev.need("fancy store: indices pairwise distinct", st, z3.ForAll([a_, b_], z3.Implies(z3.And(0 <= a_, a_ < b_, b_ < n), ia(a_) != ia(b_))), node)
+        facts = []
+        out = fresh(Sh("seq", [base.esh]), "fstore", facts, base.kind)
+        st.pc.extend(facts)
+        st.pc.append(out.n == base.n)
+        from .values import leaf_term
+        vk = leaf_term(base.esh, v.at(k))
+        st.pc.append(z3.ForAll([k], z3.Implies(z3.And(k >= 0, k < n), as_num(out.at(ia(k))).t == vk)))
+        j = z3.Int(fresh_name("j"))
+        st.pc.append(z3.ForAll([j], z3.Implies(z3.And(j >= 0, j < base.n, z3.ForAll([k], z3.Implies(z3.And(k >= 0, k < n), ia(k) != j))),
+                                               as_num(out.at(j)).t == as_num(base.at(j)).t)))
+        return out
     raise Unsupported("boolean-mask store")
 
 
